@@ -27,9 +27,13 @@ impl<C: Config, Q: Query> Snapshot<C, Q> {
     ) {
         // SAFETY: We are reading our own backward edges, which we've already
         // acquired the lock for.
-        let backward_edges = unsafe {
+        //
+        // The iterator holds the (synchronous) locks of the edge set and must
+        // not live across the `.await`s below, so the edges are copied out.
+        let backward_edges: Vec<_> = unsafe {
             self.engine().get_backward_edges_unchecked(self.query_id()).await
-        };
+        }
+        .collect();
 
         let mut backward_projections = Vec::new();
         for query_id in backward_edges {
